@@ -4,7 +4,7 @@
 From Coq Require Import List NArith Bool Arith Sorted.
 From Coq Require Import Strings.Byte.
 Require Import BS.Bytes BS.Common BS.Api BS.Layout BS.Format BS.FormatFacts BS.Spec BS.SpecStep.
-Require Import BS.FS BS.FSFacts BS.Meta BS.MetaFacts BS.Header BS.Reader BS.ReaderFacts BS.Index BS.Data BS.DataFacts BS.Seek BS.Series BS.SeriesFacts BS.ReadAllFacts BS.TotalFacts BS.CacheFacts.
+Require Import BS.FS BS.FSFacts BS.Meta BS.MetaFacts BS.Header BS.Reader BS.ReaderFacts BS.Index BS.Data BS.DataFacts BS.Seek BS.Series BS.SeriesFacts BS.ReadAllFacts BS.TotalFacts BS.CacheFacts BS.Sections BS.ExtractFacts BS.OpenFacts BS.TornGenFacts BS.CacheOpenFacts BS.CacheCreateFacts.
 Import ListNotations.
 
 
@@ -59,4 +59,46 @@ Theorem C08_files : forall fs s p hdr ihdr l cs, RepS fs s p hdr ihdr l cs ->
     (s_down s) cs.
 Proof. exact RepS_cache_files. Qed.
 Print Assumptions C08_files.
-(* partial: the state after a reopen with existing caches (DownSampledData::open, repair) is C09: not proved, known finding D10. *)
+
+(* (I refines S) "created on first open over pre-existing data": a series that already holds ANY well-formed list of lines
+   (invariant RepH, no caches so far) is opened with cache levels whose files do not exist: DownSampledData::open_or_create falls
+   through to create, which resamples the whole source in one pass of the chunked reader. Afterwards the invariant RepS holds
+   for the same lines - every level's data file is its header followed by the reference encoding of the bucket means of all
+   complete buckets, its index the index of that, the open bucket sits in the accumulator (so later appends continue the same
+   buckets: C08_append) - and no file outside the new levels is touched. Every payload size (0..3 under the marker-word
+   condition nm_sec of C04 on the source, needed for the open of the source itself), any bucket sizes, any timestamps. *)
+Theorem C08_created_on_open : forall p fs s0 name uhdr popt hdropt cb l (Bs:list N),
+  let header := params_to_text BSgen.Consts.version (N.of_nat p) ++ uhdr in
+  RepH fs s0 p (outer header) (outer []) l ->
+  of_name (d_file (s_data s0)) = name ++ ext_data -> of_name (ix_file (d_index (s_data s0))) = name ++ ext_index ->
+  Forall (nm_sec p) (secs_of l) ->
+  (len header <= 65535)%N -> (len (encode p l) < 2^64)%N -> (N.of_nat p < 2^64)%N ->
+  (popt = None \/ popt = Some (N.of_nat p)) ->
+  match hdropt with HdrIs e => e = uhdr | HdrAny => True end ->
+  Forall (level_missing fs name) Bs ->
+  NoDup ([name ++ ext_data; name ++ ext_index] ++ flat_map (cache_names name) Bs) ->
+  exists fs' s, builder_open name popt hdropt Bs cb fs = (fs', Ok (s, uhdr))
+    /\ RepS fs' s p (outer header) (outer []) l (map (open_spec name) Bs) /\ s_cb s = cb
+    /\ (forall g, ~ In g (flat_map (cache_names name) Bs) -> fs_get fs' g = fs_get fs g)
+    /\ Forall2 (fun ds B =>
+         fs_get fs' (cache_name name B ++ ext_data) = Some (outer (config_header name B) ++ encode p (cache_of p (N.to_nat B) l))
+         /\ fs_get fs' (cache_name name B ++ ext_index)
+            = Some (outer [] ++ enc_index (sections p (encode p (cache_of p (N.to_nat B) l))))) (s_down s) Bs.
+Proof. exact open_creates_caches. Qed.
+Print Assumptions C08_created_on_open.
+
+(* one level: DownSampledData::create over a source in its invariant, any list of lines (the fold of ds_process over the
+   chunked reader = Spec.cache_of plus the open bucket) *)
+Theorem C08_create_level : forall p fs name (B:N) src cb hdr ihdr l,
+  wf_series p l -> (1 <= B)%N ->
+  RepD fs src p hdr ihdr (encode p l) (full_after p None l) (option_map fst (last_opt l)) ->
+  fs_mem fs (cache_name name B ++ ext_data) = false -> fs_mem fs (cache_name name B ++ ext_index) = false ->
+  (len (config_header name B) <= 65535)%N ->
+  ~ In (of_name (d_file src)) (cache_names name B) -> ~ In (of_name (ix_file (d_index src))) (cache_names name B) ->
+  exists fs' ds, ds_create name B p src cb fs = (fs', Ok ds)
+    /\ cache_ok p fs' l ds (new_spec name B)
+    /\ cache_files ds = cache_names name B
+    /\ (forall g, ~ In g (cache_names name B) -> fs_get fs' g = fs_get fs g).
+Proof. exact ds_create_ok. Qed.
+Print Assumptions C08_create_level.
+(* partial: the state after a reopen with EXISTING caches that are not aligned (DownSampledData::open, repair) is C09: known finding D10. *)
